@@ -1,4 +1,5 @@
 import AlgoVerif.Model.GrammarCore
+import AlgoVerif.Generated.C11Consts
 /-!
 # C11 — Model, part 1: what the LR *driver* and the conflict resolution work on
 
@@ -18,8 +19,8 @@ open AlgoVerif AlgoVerif.Gram
 abbrev Sy := SSym
 abbrev Pr := SProd
 
-/-- `grammar.Endmarker` (a private-use code point, rendered `$`) -/
-def endmarker : String := "\uEEEE"
+/-- `grammar.Endmarker` (a private-use code point, rendered `$`), regenerated from grammar/symbol.go by `bin/pre-C11` -/
+def endmarker : String := AlgoVerif.Generated.C11.grammar_Endmarker
 
 /-- `lr.Action` (the `ERROR` action is never stored in a table; `ACTION` fabricates it together with an error) -/
 inductive Action where
